@@ -91,6 +91,7 @@ func trunc(s string) string {
 }
 
 const largeBase = 1000000000
+const decodedBase = 500000000
 
 func caseGen(r *mon.Rec, idx int) {
 	rng := r.Rand("gen", idx)
@@ -98,6 +99,16 @@ func caseGen(r *mon.Rec, idx int) {
 	if idx >= largeBase { // large totals: option areas of 60 kB to 1 MB
 		p, e = gen4.Packet(rng, 2)
 		gen4.LargeTotal(rng, p, e)
+	} else if idx >= decodedBase {
+		// a packet value that was decoded from bytes no canonical encoder wrote (options in any order, split, padded,
+		// trailing octets): it is a packet like any other, its encoding is the canonical one of what it holds
+		w0, e0 := gen4.WirePacket(rng, 8)
+		q, err := dhcpv4.FromBytes(w0)
+		if err != nil || len(e0.SName) > 63 || len(e0.File) > 127 {
+			return
+		}
+		e0.HLen = byte(len(e0.CHAddr)) // an hlen above 16 is re-encoded as the clipped length
+		p, e = q, e0
 	}
 	r.Current(replay{Stream: "gen", Idx: idx, Wire: ""})
 	r.Eval(1)
@@ -407,6 +418,13 @@ func TestCheck(t *testing.T) {
 			caseGen(r, largeBase+i)
 		}
 	}
+	nd := r.Pick(20000, 2000000)
+	for i := 0; i < nd; i++ {
+		if r.Mine(i) {
+			caseGen(r, decodedBase+i)
+		}
+	}
+	r.Set("decoded_packet_cases", nd)
 	r.Set("large_total_cases", nl)
 	m := r.Pick(3000, 300000)
 	for i := 0; i < m; i++ {
